@@ -950,7 +950,7 @@ def _check_conditional_callback(ctx, cb, eff):
 
 
 # ------------------------------------------------------------------------------------------------
-def check_async_effect_order(run, ctx):
+def check_async_effect_order(run, ctx, rule='C20-W1'):
     """C20-W1: every store in a generated coroutine is dominated by the delivery of the body's value;
     nothing but registration and the lookup touches the cache before the first suspension"""
     n = 0
@@ -992,10 +992,10 @@ def check_async_effect_order(run, ctx):
                 where_ = 'before the body is awaited' if any(y in body.reachable(b) for y in yields) else 'after the body'
                 probs.append('the generated wrapper performs %s on the cache statics directly (%s, %s)' % (k, callee_name(t).rsplit('::', 1)[-1], where_))
         if probs:
-            run.bad('C20-W1', _fx_key(w, 'effect-order'), '%s: %s' % (w.path, '; '.join(sorted(set(probs)))), site=w.path,
-                    oracle='stores dominated by the Ready edge of the body future; no cache mutation before it')
+            run.bad(rule, _fx_key(w, 'effect-order'), '%s: %s' % (w.path, '; '.join(sorted(set(probs)))), site=w.path,
+                    oracle='stores dominated by the Ready edge of the body future; no cache mutation before it; the wrapper touches the cache only through get / insert*')
         else:
-            run.ok('C20-W1', w.path, '%d store(s) dominated by Poll::Ready of the body' % len(sites.get('store', [])))
+            run.ok(rule, w.path, '%d store(s) dominated by Poll::Ready of the body' % len(sites.get('store', [])))
     return n
 
 
